@@ -638,7 +638,7 @@ class LexScale(Sub):
     min_nontrivial = 40
 
     def cases(self, tier, unit):
-        for n in scale(tier, 4096):
+        for n in scale(tier, 4096) + [4300, 4301, 5000]:      # 4301: where the interpreter refuses int(text)
             yield [n]
 
     def check(self, env, case):
@@ -649,13 +649,21 @@ class LexScale(Sub):
 
         def bad(msg, want, got):
             out.append(fail('size %d: %s' % (n, msg), repr(want)[:200], repr(got)[:200]))
+        def big_int(text):      # int() refuses more than 4300 digits at once
+            v = 0
+            for i in range(0, len(text), 4000):
+                chunk = text[i:i + 4000]
+                v = v * 10 ** len(chunk) + int(chunk)
+            return v
         for pat in ('1234567890', '9'):
             digits = (pat * (n // len(pat) + 1))[:n]
-            o = env.evo(digits)
-            v = env.dec(o[1]) if o[0] == 'v' else None
-            if o[0] != 'v' or isinstance(v, bool) or not isinstance(v, (int, float)) or (
-                    v != int(digits) if isinstance(v, int) else (n <= 15 or float(int(digits)) != v)):
-                bad('the %d-digit literal %s... evaluates to %s' % (n, digits[:12], repr(o)[:60]), int(digits), o)
+            r = env.ev(digits)
+            v = r.get('result') if isinstance(r, dict) and r.get('error') is None else None
+            want = big_int(digits)
+            if isinstance(v, bool) or not isinstance(v, (int, float)) or (
+                    v != want if isinstance(v, int) else (n <= 15 or n > 300 or float(want) != v)):
+                shown = ('an integer of %d bits' % v.bit_length()) if isinstance(v, int) and not isinstance(v, bool) else repr(env.out(r) if not isinstance(v, int) else v)[:60]
+                bad('the %d-digit literal %s... evaluates to %s, not to the number it spells' % (n, digits[:12], shown), 'the %d-digit integer' % n, shown)
             if n <= 300:
                 f = '0.' + digits
                 o = env.evo(f)
